@@ -613,6 +613,14 @@ def numericTarget (t : String) : Nat :=
   let n := atoi t
   if n > 0 then n else if t = "web" then 8080 else if t = "adm" then 9090 else if t = "alt" then 8081 else 0
 
+/-- the Endpoints object the world builds (`BuildEndpoints`: ports follow the service; no subset without addresses) -/
+def mkEndpoints (w : World) (k : String) (ready notReady : List (String × String)) : Endpoints :=
+  if ready.isEmpty && notReady.isEmpty then ⟨k, [], [], []⟩
+  else ⟨k, ready, notReady,
+    match w.findSvc k with
+    | some s => s.ports.map fun p => (p.name, numericTarget p.target)
+    | none => []⟩
+
 /-- apply one operation: the new cluster and the events as the real predicates/handlers see them
 (validity depends on the IngressClasses only, which an Ingress event does not change) -/
 def applyOp (wb : World × Batch) (op : Op) : World × Batch :=
@@ -649,14 +657,10 @@ def applyOp (wb : World × Batch) (op : Op) : World × Batch :=
       let b := if (w.findEp k).isSome then addLink b ⟨.ep, k⟩ else b
       ({ w with svcs := w.svcs.filter (·.key ≠ k), eps := w.eps.filter (·.key ≠ k) }, b)
   | .epSet k ready notReady =>
-    let ports := match w.findSvc k with
-      | some s => s.ports.map fun p => (p.name, numericTarget p.target)
-      | none => []
-    let e : Endpoints := if ready.isEmpty && notReady.isEmpty then ⟨k, [], [], []⟩ else ⟨k, ready, notReady, ports⟩
-    let w' := { w with eps := replaceBy Endpoints.key e w.eps }
+    let w' := { w with eps := replaceBy Endpoints.key (mkEndpoints w k ready notReady) w.eps }
     match w.findEp k with
     | none => (w', addLink b ⟨.ep, k⟩)
-    | some old => if old = e then (w', b) else (w', addLink b ⟨.ep, k⟩)
+    | some old => if old = mkEndpoints w k ready notReady then (w', b) else (w', addLink b ⟨.ep, k⟩)
   | .epDel k =>
     match w.findEp k with
     | none => (w, b)
